@@ -228,7 +228,11 @@ class CFG:
                 self._edge(n, h, 'continue')
             ex_lab = 'exhausted' if kind == 'for' else 'F'
             after: List[Tuple[int, str]]
-            if s.orelse:
+            # `while True:` is left only through break/return/raise: its test never fails
+            never_fails = kind == 'while' and isinstance(s.test, ast.Constant) and bool(s.test.value)
+            if never_fails:
+                after = []
+            elif s.orelse:
                 after = self._block(s.orelse, [(h, ex_lab)])
             else:
                 after = [(h, ex_lab)]
